@@ -373,7 +373,7 @@ func c12Lookup(c *core.Ctx, name string, fn *ssa.Function) {
 		idx  int
 	}{{"service", query, 0}, {"method", find, -1}} {
 		found := false
-		for _, r := range core.Returns(fn) {
+		for _, r := range core.ErrReturns(fn) {
 			isNilEdge := core.GuardedBy(r, func(f core.Fact) bool {
 				if f.Op != token.EQL || !core.IsNilConst(f.Y) {
 					return false
